@@ -109,7 +109,8 @@ class Slots:
                             k = callee_of(tx)
                             # a sequential kernel is where the concurrent iterator is turned back into its sequential iterator;
                             # accessors on the sequential route (`destruct`) are not kernels
-                            if k not in self.seq_kernels and not F.bodies[k].d.get('impl_trait') and self._reaches_seq_iter(k):
+                            if k not in self.seq_kernels and not F.bodies[k].d.get('impl_trait') and \
+                                    (self._reaches_seq_iter(k) or self._receives_iterator(b, tx, F.bodies[k])):
                                 self.seq_kernels.append(k)
                     # the sequential work may also be written inline on the sequential-only route of this body
                     if any(b.blocks[x]['term']['t'] == 'call' and is_coniter_call(b.blocks[x]['term'], {'into_seq_iter'}) for x in true_only):
@@ -169,6 +170,21 @@ class Slots:
                 if is_coniter_call(t, {'into_seq_iter'}):
                     return True
                 if t.get('local') and callee_of(t) in F.bodies and depth < 2 and self._reaches_seq_iter(callee_of(t), depth + 1):
+                    return True
+        return False
+
+    def _receives_iterator(self, host, t, callee):
+        """does the call hand the concurrent iterator (a value whose type is an `I: ConcurrentIter(X)` parameter, by value or by
+        reference) to the callee: then the callee does the work of the sequential route, whatever it calls"""
+        for l in callee.arg_locals():
+            h = callee.locals[l]['head']
+            while h.startswith('ref:'):
+                h = h[4:]
+            ty = callee.locals[l]['ty']
+            if h.startswith('param:') and not ty.lstrip('&').strip() in callee.fn_bounds() and 'Params' not in ty:
+                # a type parameter that is not a closure: the iterator (I) - element / output types never appear as bare parameters
+                nm = (callee.local_name(l) or '')
+                if nm in ('iter', 'con_iter', 'source') or h[6:] in ('I', 'Iter', 'C'):
                     return True
         return False
 
